@@ -200,7 +200,7 @@ func (vc *VC) checkPosts(st *State, n ast.Node) {
 	if rs, ok := n.(*ast.ReturnStmt); ok {
 		retTag = fmt.Sprintf("ret%d:%s", vc.retCount, clip(nodeText(vc.prog.Fset, rs)))
 	}
-	vc.cover(st, nil, retTag+":reachable")
+	vc.cover(st, nil, retTag+":reachable").Soft = true
 	if vc.con == nil {
 		return
 	}
